@@ -1,4 +1,5 @@
 import XdocModel.Py.Str
+import XdocModel.Generated
 /-!
 # Model of `xdoctest/static_analysis.py` : `TopLevelVisitor`, docstring location, `package_modpaths`
 
@@ -25,10 +26,12 @@ inductive Deco where
   | other                  -- calls etc.
   deriving DecidableEq, Repr
 
-/-- `ast.get_docstring(node, clean=False)` and `node.body[0].end_lineno` (1-based) -/
+/-- `ast.get_docstring(node, clean=False)`, `node.body[0].end_lineno` and `.lineno` (1-based) -/
 structure Doc where
   text : Str
   endLine : Nat
+  /-- `node.body[0].lineno` (1-based): since CPython 3.8 the line on which the literal starts -/
+  startLine : Nat
   deriving DecidableEq, Repr
 
 /-- what `visit_If` inspects of `node.test` (each field read from CPython's `ast`):
@@ -40,6 +43,9 @@ structure Test where
   op0Eq : Bool
   leftId : Option Str
   comp0 : Option Str
+  /-- `test.left.value` when it is a `str`, `test.comparators[0].id` (the guard written the other way round) -/
+  leftStr : Option Str := none
+  comp0Id : Option Str := none
   deriving DecidableEq, Repr
 
 /-- a statement list -/
@@ -131,11 +137,16 @@ def findDocStart (docstr : Str) (src : List Str) (endpos : Nat) : Except LocErro
       | .ok (some s) => .ok (s, stop)
       | .ok none => .ok ((endpos : Int), stop)
 
-/-- `(doclineno, doclineno_end)` of `_docnode_line_workaround` -/
+/-- `(doclineno, doclineno_end)` of `_docnode_line_workaround` (branch taken when the node has
+    `end_lineno`). Which of the two variants the code contains is read from the sources on every run
+    (`Generated.docstartUsesNodeLineno`): the node's own `lineno`, or the start recovered from the end
+    line by `_find_docstr_startpos_workaround`. -/
 def docLines (src : List Str) (d : Doc) : Except LocError (Int × Nat) :=
-  match findDocStart d.text src (d.endLine - 1) with
-  | .error e => .error e
-  | .ok (start, stop) => .ok (start + 1, stop)
+  if Generated.docstartUsesNodeLineno then .ok ((d.startLine : Int), d.endLine)
+  else
+    match findDocStart d.text src (d.endLine - 1) with
+    | .error e => .error e
+    | .ok (start, stop) => .ok (start + 1, stop)
 
 /-! ## the visitor -/
 
@@ -162,9 +173,12 @@ def skipDeco (ds : List Deco) : Bool :=
     | .attr a => a == "deleter".toList || a == "setter".toList
     | _ => false
 
-/-- `visit_If` : all three tests hold (an `AttributeError` in any of them is swallowed) -/
+/-- `visit_If` : `__name__ == '__main__'` or `'__main__' == __name__` (in each form all three tests
+    hold; an `AttributeError` in any of them is swallowed) -/
 def isMainGuard (t : Test) : Bool :=
-  t.isCompare && t.op0Eq && t.leftId == some "__name__".toList && t.comp0 == some "__main__".toList
+  t.isCompare && t.op0Eq &&
+    ((t.leftId == some "__name__".toList && t.comp0 == some "__main__".toList) ||
+     (t.leftStr == some "__main__".toList && t.comp0Id == some "__name__".toList))
 
 def qualName (cur : Option Str) (name : Str) : Str :=
   match cur with
@@ -197,7 +211,8 @@ def visit (loc : Locator) : Tree → St → St
       visit loc next { st2 with cur := none }
     | some _ => visit loc next st       -- a class inside a class: skipped with everything in it
   | .ifs test _ _ body orelse next, st =>
-    if isMainGuard test then visit loc next st
+    -- the guarded block is ignored; its `else` branch (what an import runs) is visited
+    if isMainGuard test then visit loc next (visit loc orelse st)
     else visit loc next (visit loc orelse (visit loc body st))
   | .comp _ body next, st => visit loc next (visit loc body st)
   | .imp _ next, st => visit loc next st
@@ -224,7 +239,8 @@ def locatedDocs : Tree → Bool → List Doc
   | .cls _ _ doc body next, inCls =>
     (if inCls then [] else doc.toList ++ locatedDocs body true) ++ locatedDocs next inCls
   | .ifs test _ _ body orelse next, inCls =>
-    (if isMainGuard test then [] else locatedDocs body inCls ++ locatedDocs orelse inCls) ++ locatedDocs next inCls
+    (if isMainGuard test then locatedDocs orelse inCls else locatedDocs body inCls ++ locatedDocs orelse inCls)
+      ++ locatedDocs next inCls
   | .comp _ body next, inCls => locatedDocs body inCls ++ locatedDocs next inCls
   | .imp _ next, inCls => locatedDocs next inCls
   | .other next, inCls => locatedDocs next inCls
@@ -239,14 +255,14 @@ def parseStaticCalldefs (src : List Str) (m : Module) : Except LocError (List Ca
 
 /-- what a class body contributes: its methods (plain / static / class / property getter, decorated
     or not, `async` or not), reached through any nesting of non-definition compound statements,
-    except setters/deleters and code under a main guard; nothing from nested classes -/
+    except setters/deleters and code under a main guard (its `else` branch counts); nothing from nested classes -/
 def methodsOf (loc : Locator) (cname : Str) : Tree → List CallDef
   | .done => []
   | .func _ name decos doc _ next =>
     (if skipDeco decos then [] else [mkCallDef loc (cname ++ ['.'] ++ name) doc]) ++ methodsOf loc cname next
   | .cls _ _ _ _ next => methodsOf loc cname next
   | .ifs test _ _ body orelse next =>
-    (if isMainGuard test then [] else methodsOf loc cname body ++ methodsOf loc cname orelse)
+    (if isMainGuard test then methodsOf loc cname orelse else methodsOf loc cname body ++ methodsOf loc cname orelse)
       ++ methodsOf loc cname next
   | .comp _ body next => methodsOf loc cname body ++ methodsOf loc cname next
   | .imp _ next => methodsOf loc cname next
@@ -260,7 +276,7 @@ def topLevel (loc : Locator) : Tree → List CallDef
   | .cls name _ doc body next =>
     mkCallDef loc name doc :: methodsOf loc name body ++ topLevel loc next
   | .ifs test _ _ body orelse next =>
-    (if isMainGuard test then [] else topLevel loc body ++ topLevel loc orelse) ++ topLevel loc next
+    (if isMainGuard test then topLevel loc orelse else topLevel loc body ++ topLevel loc orelse) ++ topLevel loc next
   | .comp _ body next => topLevel loc body ++ topLevel loc next
   | .imp _ next => topLevel loc next
   | .other next => topLevel loc next
@@ -271,7 +287,7 @@ def inventory (loc : Locator) (m : Module) : List CallDef :=
 /-! ### the regions that must not matter -/
 
 /-- replace by inert statements everything the property says is NOT collected: function bodies,
-    classes nested in a class, property setters/deleters, `if __name__ == '__main__':` blocks -/
+    classes nested in a class, property setters/deleters, the block guarded by `if __name__ == '__main__':` (either order; its `else` branch stays) -/
 def prune : Tree → Bool → Tree
   | .done, _ => .done
   | .func a name decos doc _ next, inCls =>
@@ -281,7 +297,7 @@ def prune : Tree → Bool → Tree
     if inCls then .other (prune next inCls)
     else .cls name decos doc (prune body true) (prune next inCls)
   | .ifs test r1 r2 body orelse next, inCls =>
-    if isMainGuard test then .other (prune next inCls)
+    if isMainGuard test then .ifs test r1 r2 .done (prune orelse inCls) (prune next inCls)
     else .ifs test r1 r2 (prune body inCls) (prune orelse inCls) (prune next inCls)
   | .comp r body next, inCls => .comp r (prune body inCls) (prune next inCls)
   | .imp n next, inCls => .imp n (prune next inCls)
